@@ -89,6 +89,8 @@ func (e *Engine) resolveType(pkg string, t *TypeExpr) (string, types.Type) {
 				return "Int", nil
 			case "struct{}":
 				return "Int", types.NewStruct(nil, nil)
+			case "beh":
+				return "Beh", nil
 			case "error":
 				return "Int", types.Universe.Lookup("error").Type()
 			}
@@ -281,6 +283,17 @@ func (ev *EvalCtx) eval(e *Expr) (SVal, error) {
 		}
 		if e.Name == "!" {
 			return SVal{T: "(not " + x.T + ")", S: "Bool"}, nil
+		}
+		if e.Name == "*" {
+			if x.GT != nil {
+				if pt, ok := x.GT.Underlying().(*types.Pointer); ok {
+					if n, _ := ptrStruct(x.GT); n == nil {
+						k := c.eng.boxKey(pt.Elem())
+						return SVal{T: "(select " + c.heapTerm(ev.st, k) + " " + x.T + ")", S: c.eng.sortOf(pt.Elem()), GT: pt.Elem()}, nil
+					}
+				}
+			}
+			return SVal{}, fmt.Errorf("cannot dereference %s", e.Args[0].String())
 		}
 		return SVal{T: "(- " + x.T + ")", S: "Int", GT: x.GT}, nil
 	case "binary":
@@ -895,6 +908,9 @@ func (ev *EvalCtx) modifiesObjects(cls []*Clause) (map[string][]string, error) {
 				// allof(pkg.Type.field): any object's field
 				out["H."+e.Args[0].String()] = append(out["H."+e.Args[0].String()], "*")
 				continue
+			}
+			if e.Op == "unary" && e.Name == "*" {
+				e = e.Args[0]
 			}
 			if e.Op == "call" && e.Name == "fields" && len(e.Args) == 1 {
 				// fields(x): every field of the object x points to
